@@ -17,7 +17,7 @@ def split_line(l):
     parts = l.split(" ")
     out, kv = [], {}
     for p in parts:
-        if "=" in p and p.split("=", 1)[0] in ("acts", "crash", "rec", "ploss"):
+        if "=" in p and p.split("=", 1)[0] in ("acts", "crash", "rec", "ploss", "plossn"):
             k, v = p.split("=", 1)
             kv[k] = v
         else:
